@@ -15,6 +15,7 @@ RATE_9 = "2011-11-24-22:42:04.395,2,127251,9,255,8,7d,0b,7d,02,00,ff,ff,ff"
 PROP_5 = "2011-11-24-22:42:04.400,7,65280,5,255,8,3f,9f,dc,ff,ff,ff,ff,ff"        # furunoHeave
 PROP_5b = "2011-11-24-22:42:04.401,7,65280,5,255,8,3b,9f,dc,ff,ff,ff,ff,ff"       # other manufacturer: fallback definition
 CONF_5 = "2021-01-30-20:43:21.684,6,126998,5,255,19,07,01,68,65,6C,6C,6F,0c,00,77,00,F3,00,72,00,6C,00,64,00"
+CONF_UNI = "2021-01-30-20:43:22.684,6,126998,5,255,21,07,01,68,65,6C,6C,6F,0e,00,2D,4E,87,65,3D,D8,A2,DE,F3,00"   # installation text in UTF-16: CJK, an astral character, o-acute
 FAST = ["2022-09-28-11:36:59.668,3,129029,7,255,8,00,2f,e7,95,3d,00,73,d6", "2022-09-28-11:36:59.668,3,129029,7,255,8,01,29,00,da,04,73,db,c9",
         "2022-09-28-11:36:59.668,3,129029,7,255,8,02,e5,05,80,7d,02,28,5f", "2022-09-28-11:36:59.669,3,129029,7,255,8,03,4a,20,f3,c0,ca,b9,01",
         "2022-09-28-11:36:59.669,3,129029,7,255,8,04,00,00,00,00,10,fc,0c", "2022-09-28-11:36:59.669,3,129029,7,255,8,05,4e,00,a0,00,e8,03,00",
@@ -212,6 +213,23 @@ def check_formats_one_decoder():
     return None
 
 
+def check_reclaim_same_device():
+    """C11: a device that claims again with a changed NAME (only the device instance byte differs) is known by the NEW identity
+    from then on - the identity is that of the most recent claim, not of the first one."""
+    from nmea2000.decoder import NMEA2000Decoder
+    claim2 = CLAIM_A.replace(',22,00,9b,', ',22,0b,9b,')
+    name2 = int.from_bytes(bytes(int(x, 16) for x in claim2.split(',')[6:]), 'little')
+    for cfg in ({}, {'exclude_pgns': [60928]}, {'build_network_map': True}):
+        dec = NMEA2000Decoder(**cfg)
+        for line, comb in ((CLAIM_A, True), (HEAT_5, False), (CLAIM_A, True), (claim2, True)):
+            dec.decode_basic_string(line, comb)
+        m = dec.decode_basic_string(HEAT_5, False)
+        got = None if m is None or m.source_iso_name is None else (m.source_iso_name.name, m.source_iso_name.device_instance)
+        if got != (name2, 11):
+            return {'config': cfg, 'history': [CLAIM_A, HEAT_5, CLAIM_A, claim2, HEAT_5], 'observed': f'identity (NAME, device instance) = {got}', 'expected': f'({name2}, 11): the identity of the latest claim of address 5'}
+    return None
+
+
 def check_identity():
     """C11: identity attached = latest claim of the source address; manufacturer lists; withholding."""
     from nmea2000.decoder import NMEA2000Decoder
@@ -256,9 +274,9 @@ def check_dump():
             with tempfile.TemporaryDirectory() as td:
                 path = os.path.join(td, 'dump.jsonl')
                 dec = NMEA2000Decoder(dump_to_file=path, dump_pgns=dp, preferred_units=prefs)
-                outs = decode_all(dec, HISTORY * 12)           # more than a hundred dumped lines
+                outs = decode_all(dec, HISTORY * 12 + [(CONF_UNI, True)])           # more than a hundred dumped lines, one with non-ASCII text
                 dec.close()
-                text = open(path).read()
+                text = open(path, encoding='utf-8').read()
                 dn = [x for x in dp if isinstance(x, int)]
                 di = [x.lower() for x in dp if isinstance(x, str)]
                 want = [m.to_json() for m in outs if m is not None and not isinstance(m, tuple) and ((not dn and not di) or m.PGN in dn or m.id.lower() in di)]
@@ -270,7 +288,7 @@ def check_dump():
     return None
 
 
-BATTERY = {'C10': [check_filters, check_filtered_fast_packets], 'C11': [check_identity, check_filters], 'C15': [check_dump], 'C16': [check_filters, check_identity, check_filtered_fast_packets, check_ignored_then_supported, check_formats_one_decoder], 'C08': [], 'C17': [check_hash_presence], 'C07': [check_formats_one_decoder]}
+BATTERY = {'C10': [check_filters, check_filtered_fast_packets], 'C11': [check_identity, check_filters, check_reclaim_same_device], 'C15': [check_dump], 'C16': [check_filters, check_identity, check_filtered_fast_packets, check_ignored_then_supported, check_formats_one_decoder], 'C08': [], 'C17': [check_hash_presence], 'C07': [check_formats_one_decoder]}
 
 
 _MEMO = {}
